@@ -82,7 +82,7 @@ def run_vector(v):
     tr['bounds'] = {'h': False, 'got': [], 'exc': ''}
     tr['back'] = {'h': False, 'v': [], 'idx': [], 'strict': False,
                   'exc': ''}
-    tr['synth'] = {'h': False, 'got': [], 'exc': ''}
+    tr['synth'] = {'h': False, 'got': [], 'bgot': [], 'exc': ''}
     kind = v['kind']
     try:
         if kind == 'cf':
@@ -160,9 +160,13 @@ def run_vector(v):
             g = f.copy()
             add_time_variable(g, 'time')
             tt = g.getTimes()
-            tr['synth'] = {'h': True, 'got': [civil(t) for t in tt], 'exc': ''}
+            # ... and its cell bounds (add_time_variables adds both)
+            add_time_variable(g, 'time_bounds')
+            tb = g.getTimes(bounds=True)
+            tr['synth'] = {'h': True, 'got': [civil(t) for t in tt],
+                           'bgot': [civil(t) for t in tb], 'exc': ''}
         except Exception as ex:
-            tr['synth'] = {'h': False, 'got': [],
+            tr['synth'] = {'h': False, 'got': [], 'bgot': [],
                            'exc': '%s: %s' % (type(ex).__name__,
                                               str(ex)[:100])}
     return tr
@@ -232,11 +236,11 @@ def gen_vectors(rnd, tier):
                 times.append(int(t.strftime('%H%M%S')))
             vs.append({'kind': 'tflag', 'dates': dates, 'times': times,
                        'tstep': tstep, 'want_bounds': True,
-                       'want_synth': tstep < 1000000})
+                       'want_synth': True})
         else:
             vs.append({'kind': 'sdate', 'sdate': sdate, 'stime': stime,
                        'tstep': tstep, 'n': n, 'want_bounds': True,
-                       'want_synth': tstep < 1000000})
+                       'want_synth': True})
     for i in range(100 if tier == 'quick' else 1000):
         n = rnd.randint(1, 3)
         base = rnd.choice([0, 24, 8760, 140256, 333333])
